@@ -42,6 +42,7 @@ type Conn struct {
 	rd, wr        *half
 	local, remote Addr
 	rdl           atomic.Value // time.Time read deadline
+	wdl           atomic.Value // time.Time write deadline (sticky, like a real connection's)
 	closeOnce     sync.Once
 	peer          *Conn
 	Closed        int32
@@ -112,6 +113,9 @@ func (c *Conn) Read(p []byte) (int, error) {
 }
 
 func (c *Conn) Write(p []byte) (int, error) {
+	if d, _ := c.wdl.Load().(time.Time); !d.IsZero() && !time.Now().Before(d) {
+		return 0, timeoutError{}
+	}
 	h := c.wr
 	h.mu.Lock()
 	if h.broken != nil {
@@ -187,6 +191,7 @@ func (c *Conn) LocalAddr() net.Addr  { return c.local }
 func (c *Conn) RemoteAddr() net.Addr { return c.remote }
 func (c *Conn) SetDeadline(t time.Time) error {
 	c.SetReadDeadline(t)
+	c.SetWriteDeadline(t)
 	return nil
 }
 func (c *Conn) SetReadDeadline(t time.Time) error {
@@ -196,7 +201,16 @@ func (c *Conn) SetReadDeadline(t time.Time) error {
 	c.rd.mu.Unlock()
 	return nil
 }
-func (c *Conn) SetWriteDeadline(t time.Time) error { return nil }
+// SetWriteDeadline behaves like a real connection's: the deadline is sticky (it stays in force for
+// every later Write until it is set again; the zero time clears it) and a Write that starts after
+// it fails with a timeout error without writing anything.
+func (c *Conn) SetWriteDeadline(t time.Time) error { c.wdl.Store(t); return nil }
+
+type timeoutError struct{}
+
+func (timeoutError) Error() string   { return "i/o timeout" }
+func (timeoutError) Timeout() bool   { return true }
+func (timeoutError) Temporary() bool { return true }
 
 // Sent returns a copy of everything this end has written so far, and the Write call lengths.
 func (c *Conn) Sent() ([]byte, []int) {
